@@ -638,6 +638,7 @@ func init() {
 				items = append(items, Item{Name: "histories/append-only/base-tests=3,posts=3", MaxDevs: -1, Run: c16ScenarioFiltered(5, 3, 3, appendOnly)})
 			}
 			items = append(items, Item{Name: "records-through-tagged-front-ends", MaxDevs: -1, Run: c16RecordsScenario})
+			items = append(items, Item{Name: "operands-from-a-caller-owned-list", MaxDevs: -1, Run: c16OperandListScenario})
 			return items
 		},
 	})
